@@ -689,3 +689,68 @@ func c19Partitioned(p *Prog, r *Report, R2, R3 string, con *ssa.Function, eb [4]
 	_, n, ok := retOK(vi)
 	r.Check(ok && n < 0, R3, "failure exactly when fewer bytes than announced are available", p.Pos(con.Pos()), "empty input fails; each class fails exactly below its size (partitions above)", fmt.Sprintf("empty input: length %d %s", n, vi.err))
 }
+
+// c19ExactLengthSweep re-decides decode(encode(v)) == v for every class with the
+// input length pinned to each value from the class size up to maxLen: under an
+// exact length every comparison with len(b) is decided, so a decoder that takes
+// another route for long inputs (a word-load fast path behind len(b) >= 8, ...)
+// is interpreted on that route too. Trailing bytes are arbitrary input. Only
+// decided wrong results are reported; a route the interpreter cannot model
+// leaves the verdict to the other rules (noted).
+func c19ExactLengthSweep(p *Prog, r *Report, R2 string, con *ssa.Function, eb [4][]bits) {
+	sizes := []int{1, 2, 4, 8}
+	// the largest constant the function compares len(b) with
+	maxLen := 9
+	for _, b := range con.Blocks {
+		for _, in := range b.Instrs {
+			bo, ok := in.(*ssa.BinOp)
+			if !ok {
+				continue
+			}
+			for _, pr := range [][2]ssa.Value{{bo.X, bo.Y}, {bo.Y, bo.X}} {
+				if _, isLen := lenOfParam(pr[0]); isLen {
+					if k, ok := constIntOf(pr[1]); ok && int(k)+1 > maxLen && k < 64 {
+						maxLen = int(k) + 1
+					}
+				}
+			}
+		}
+	}
+	undecided := 0
+	for c := 0; c < 4; c++ {
+		width := 8*sizes[c] - 2
+		enc := eb[c]
+		bad := ""
+		for m := sizes[c]; m <= maxLen; m++ {
+			vi := &vinterp{fn: con, bparam: con.Params[0], exact: m, need: sizes[c]}
+			vi.byteAt = func(k int) (bits, bool) {
+				if k < len(enc) {
+					return enc[k], true
+				}
+				var b bits
+				for j := 0; j < 8; j++ {
+					b[j] = 2 + 1000 + 8*k + j // trailing input, disjoint from the value's bits
+				}
+				return b, true
+			}
+			vi.run()
+			if vi.err != "" || len(vi.ret) != 2 || vi.ret[0].kind != avBits || vi.ret[1].kind != avBits {
+				undecided++
+				continue
+			}
+			nv, conc := allConcrete(vi.ret[1].b, 64)
+			if !conc {
+				undecided++
+				continue
+			}
+			if vi.ret[0].b != bitsInput(width) || int64(nv) != int64(sizes[c]) {
+				bad = fmt.Sprintf("with %d bytes of input: decode(encode(v)) = %s, length %d (want %s, %d)", m, vi.ret[0].b, int64(nv), bitsInput(width), sizes[c])
+				break
+			}
+		}
+		r.Check(bad == "", R2, fmt.Sprintf("class %d (%d bytes): identity for every input length %d..%d", c, sizes[c], sizes[c], maxLen), p.Pos(con.Pos()), "decode(encode(v) || trailing bytes) = v on every route the input length selects", bad)
+	}
+	if undecided > 0 {
+		r.Note("exact-length sweep: %d (class, length) partitions were not modelled by the interpreter and are left to the expression-level rules", undecided)
+	}
+}
